@@ -151,6 +151,12 @@ func generate(role string, thorough bool, only map[string]bool, emit func(job)) 
 				})
 			}
 			singlePair("A5", 1, p84e, 3, 2, 0, false, faulty)
+			// spends whose funding output was committed by an earlier batch
+			for lead := 0; lead <= 1; lead++ {
+				singlePair("A5", 1, p84e, 2, 1, lead, false, spends(false, faulty))
+				singlePair("A5", 2, p84e, 2, 1, lead, lead == 1, spends(false, faulty))
+			}
+			singlePair("A5", 1, p84e, 3, 1, 0, false, spends(false, faulty))
 			if thorough {
 				singlePair("A5", 1, p84e, 3, 2, 1, false, faulty)
 				singlePair("A5", 2, p84e, 3, 1, 0, false, faulty)
